@@ -2,7 +2,10 @@
 
 package renderer
 
-import "diagonal.works/b6/verifrt"
+import (
+	pb "diagonal.works/b6/proto"
+	"diagonal.works/b6/verifrt"
+)
 
 // Lemmas of the b6vc verifier (/verif). Parameters are universally
 // quantified; the bodies call the real functions.
@@ -12,4 +15,28 @@ import "diagonal.works/b6/verifrt"
 func verifLemma_C10_zigzag32(d int) {
 	verifrt.Assume(d >= -(1<<31) && d < 1<<31)
 	verifrt.Assert(zigzagDecode(zigzagEncode(d)) == d, "zigzag32-roundtrip")
+}
+
+// C33: a move-to / line-to / close-path stream written by the real encoder decodes
+// (cursor starting at the tile origin, zigzag deltas) to the two points passed in.
+// Also the concrete, replayable companion of the Encoder method contracts.
+func verifLemma_C33_stream(ox, oy, x0, y0, x1, y1 int) {
+	verifrt.Assume(ox >= 0 && ox < 1<<30 && oy >= 0 && oy < 1<<30)
+	verifrt.Assume(x0 >= 0 && x0 < 1<<30 && y0 >= 0 && y0 < 1<<30 && x1 >= 0 && x1 < 1<<30 && y1 >= 0 && y1 < 1<<30)
+	e := &Encoder{originX: ox, originY: oy, layer: &pb.TileProto_Layer{}}
+	e.StartFeature()
+	e.MoveTo(1)
+	e.XY(x0, y0)
+	e.LineTo(1)
+	e.XY(x1, y1)
+	e.ClosePath()
+	g := e.feature.Geometry
+	verifrt.Assert(len(g) == 7, "stream-length")
+	verifrt.Assert(g[0]&7 == TileCommandMoveTo && g[0]>>3 == 1, "move-to-word")
+	cx, cy := ox+zigzagDecode(g[1]), oy+zigzagDecode(g[2])
+	verifrt.Assert(cx == x0 && cy == y0, "first-point")
+	verifrt.Assert(g[3]&7 == TileCommandLineTo && g[3]>>3 == 1, "line-to-word")
+	cx, cy = cx+zigzagDecode(g[4]), cy+zigzagDecode(g[5])
+	verifrt.Assert(cx == x1 && cy == y1, "second-point")
+	verifrt.Assert(g[6]&7 == TileCommandClosePath && g[6]>>3 == 1, "close-path-word")
 }
